@@ -68,7 +68,9 @@ def run(run, pid, only=None):
                     r["text"], w["path"], " ".join(w["events"]), w["outcome"], w["payload"]),
                     dict(w, function=q, clause=r["text"]), False,
                     extra={"obligation": oid, "solver": BACKEND, "solver_status": "counter-path (may be infeasible: values are abstracted)"})
-                verdict = "violated" if reported else verdict
+                if not reported:
+                    cov["refuted_known"] += 1          # the failing path is a listed finding
+                verdict = "violated" if reported else ("known" if verdict == "proved" else verdict)
         cov["solver_time_s"] += dt
         if verdict == "degraded":
             cov["degraded_functions"].append({"function": q, "reason": "a clause applies to no path (contract out of date?)"})
